@@ -333,3 +333,19 @@ def with_twins(cases, rng, every=12):
             out.append(t)
             out.append(copy.deepcopy(c))          # ... and the first one once more, after its twin
     return out
+
+
+def under_O(suite, n=10):
+    """the same suite with the worker interpreter started under PYTHONOPTIMIZE=1 (python -O: assert statements are
+    stripped), on the first n generated cases: behaviour must not depend on an assert being executed"""
+    base = type(suite)
+
+    class Optimised(base):
+        name = suite.name + "_pyO"
+        env = dict(getattr(suite, "env", None) or {}, PYTHONOPTIMIZE="1")
+
+        def generate(self, rng, tier):
+            return base.generate(self, rng, tier)[: (3 * n if tier == "thorough" else n)]
+    inst = Optimised.__new__(Optimised)
+    inst.__dict__.update(suite.__dict__)
+    return inst
